@@ -32,7 +32,7 @@ EXPLANATION = (
 )
 LEVEL_RULE = ("obligations are (rule, function, construct) triples enumerated from the current tree; distinct = "
               "distinct triples; every one is non-trivial in that it names a concrete construct of /repo")
-FLOORS = {"R1": 13, "R2": 6, "R3": 12, "R4": 7, "R5": 8}
+FLOORS = {"R1": 13, "R2": 6, "R3": 12, "R4": 7, "R5": 8, "R6": 1}
 
 CONFIG = "pandera/config.py"
 
@@ -537,11 +537,50 @@ def r5_polars_depth(ctx):
             ctx.ob("R5", f, f"{cls.name}.validate: depth around backend validate", ok, detail, f.loc(c))
 
 
+DEPTH_READERS_OK = ("pandera/config.py", "pandera/validation_depth.py", "pandera/api/base/error_handler.py", "pandera/api/polars/utils.py")
+
+
+def r6_depth_readers(ctx):
+    """The validation depth partitions the checks into schema-level and data-level ones through @validate_scope and
+    nothing else: a backend function that reads `validation_depth` by itself makes its verdict depend on the depth
+    *inside* one scope, so SCHEMA_AND_DATA no longer accepts exactly when SCHEMA_ONLY and DATA_ONLY both accept."""
+    ix = ctx.ix
+    allowed = 0
+    for m in ix.modules.values():
+        if "pyspark" in m.path or not m.path.startswith("pandera/"):
+            continue
+        for n in ast.walk(m.tree):
+            if isinstance(n, ast.Attribute) and n.attr == "validation_depth" and isinstance(n.ctx, ast.Load):
+                if m.path in DEPTH_READERS_OK:
+                    allowed += 1
+                    continue
+                f = None
+                for g in m.all_functions:
+                    if g.node.lineno <= n.lineno <= getattr(g.node, "end_lineno", g.node.lineno):
+                        f = g if f is None or g.node.lineno >= f.node.lineno else f
+                is_check = f is not None and (f.name.startswith(("check_", "run_check")) or f.name in ("validate", "run_schema_component_checks")
+                                              or any("validate_scope" in d for d in f.decorator_names()))
+                if not is_check:
+                    ctx.ob("R6", f if f is not None else m.path, f"`{txt(n)[:70]}` read in a parser stage", True,
+                           "not a check: the polars coercion stage selects try_coerce (collects data) vs coerce (lazy) by depth, as documented",
+                           f"{m.path}:{n.lineno}")
+                    continue
+                ctx.ob("R6", f if f is not None else m.path, f"`{txt(n)}` read outside the depth machinery", False,
+                       f"{m.path}:{n.lineno} reads the validation depth directly: only validate_scope (which skips whole checks), the error "
+                       "handler (which classifies errors) and the polars default-depth helper may consult it; a check that changes what it "
+                       "inspects with the depth breaks accept_SAD <=> accept_SO and accept_DO", f"{m.path}:{n.lineno}")
+    ctx.ob("R6", "pandera", "validation depth is read only by the depth machinery", True,
+           f"{allowed} reads, all in {DEPTH_READERS_OK}")
+    if allowed < 5:
+        raise AnalysisError(f"only {allowed} reads of validation_depth found in the depth machinery: the rule no longer sees its subject")
+
+
 def run(ctx):
     r1_env_table(ctx)
     r2_config_context(ctx)
     r3_scopes(ctx)
     r4_enabled_gate(ctx)
     r5_polars_depth(ctx)
+    r6_depth_readers(ctx)
     ctx.assume("os.environ is read only through os.environ.get/os.getenv/os.environ[...] inside pandera/config.py")
     ctx.assume("validate_scope implements skip-by-depth as written (its body is covered by R3's decorator lookup, not re-proved)")
